@@ -87,8 +87,12 @@ PROPS = {
     'C15': dict(level='other', groups=['pkgtype'], kani=['package_type_names'], bounded=['names'],
         explanation='Complete on finite domains: the 7-variant name table (Kani + Verus: name() == type_name), all 192 case variants (enumerated). The converse over all strings rests on phf / UniCase '
                     '(dependency); BOUNDED: strings <= 4 / 5 over the names\' letters plus look-alikes, one-edit neighbours, the spec\'s other type names.'),
-    'C16': dict(level='other', groups=[], kani=[], bounded=['serde'],
-        explanation='BOUNDED: JSON round trip and deserialise <=> parse over T_N (N <= 3 / 4) and non-string JSON values, GenericPurl<String> and Purl, built with --features serde.'),
+    'C16': dict(level='other', groups=['serde', 'fmt', 'parse'], kani=[], bounded=['serde'],
+        trusted=['serde trait contracts (stubs in contracts/theory/serde.rs): collect_str hands over exactly the Display text as one string value; deserialize_str calls visit_str for a string value and a defaulted visit_* (refusing) otherwise; de::Error::custom',
+                 'Display::fmt of GenericPurl is the hoisted purl_fmt proved in group fmt (R2)'],
+        explanation='Proved (Verus, group serde): the three impl blocks, every member, bodies verbatim, against stubs of the serde traits: serialize hands the serializer exactly canon_spec(type, parts) (= what Display::fmt writes, group fmt) as one string value; '
+                    'visit_str returns the parser\'s value for exactly the strings parse_post accepts (group parse) and the parser\'s error through Error::custom otherwise; deserialize asks for a string and refuses anything else (the visitor overrides no other visit_*). '
+                    'What the serde data formats do with these calls is the dependency\'s business and is exercised by B. BOUNDED: JSON round trip and deserialise <=> parse over T_N (N <= 3 / 4) and non-string JSON values, GenericPurl<String> and Purl, built with --features serde.'),
     'C18': dict(level='proof', groups=['purl'], kani=[], bounded=['comb'] + A,
         explanation='Proved (Verus, all strings, all seven types): builder_with_combined_name splits at last_index_of / first_index_of, combined_name joins; lemma_c18_roundtrip derives the '
                     'round trip from proved split/join lemmas. A bounded cross-check on the compiled code accompanies the proof.',
@@ -98,7 +102,7 @@ PROPS = {
                     'BOUNDED: values that are not normalised (builder-made namespaces with empty segments etc.) and the end-to-end statement on the compiled code: all pairs of a near-collision corpus, parsed and built, String and PackageType.'),
 }
 
-ALL_GROUPS = ['lib_lower', 'lib_shape', 'pkgtype', 'qual', 'builder', 'purl', 'parse_seg', 'cksum', 'fmt', 'parse', 'inverse']
+ALL_GROUPS = ['lib_lower', 'lib_shape', 'pkgtype', 'qual', 'builder', 'purl', 'parse_seg', 'cksum', 'fmt', 'parse', 'inverse', 'serde']
 
 
 def _auto_groups():
@@ -109,7 +113,7 @@ def _auto_groups():
         except Exception:
             continue
         for u in grp['units']:
-            if u.get('mode') in ('contract_only', 'assumed') or u.get('kind', 'fn') != 'fn':
+            if u.get('mode') in ('contract_only', 'assumed') or u.get('kind', 'fn') not in ('fn', 'block'):
                 continue
             for pid in u.get('properties', []):
                 if pid in PROPS and g not in PROPS[pid]['groups']:
